@@ -96,7 +96,7 @@ TRACES['br'] = dict(driver='bridge-drive', module='Trace_Bridge', mod='br', runs
                     inv_tags=dict(Solvency=['C08'], Holdings=['C08'], Flow=['C08'], NoStuckTransfer=['C04'], Completeness=['C04', 'C08'], DrainedAfterCanonicalSchedule=['C08', 'C04']))
 
 TRACES['or'] = dict(driver='oracle-drive', module='Trace_Oracle', mod='or', runs=dict(quick=10, thorough=120), length=dict(quick=200, thorough=400), timeout=dict(quick=300, thorough=3000),
-                    inv_tags=dict(QuorumSound=['C15'], HeightNotOlder=['C15'], HostSetOnlyForward=['C15'], NoEffectOnReject=['C15']))
+                    inv_tags=dict(QuorumSound=['C15'], HeightNotOlder=['C15'], HostSetOnlyForward=['C15'], NoEffectOnReject=['C15'], ClientBound=['C15', 'C12']))
 
 # property -> engines.  `floor`: minimum counts below which the run is considered vacuous (exit 2).
 PROPERTIES = {
